@@ -21,6 +21,8 @@ pub struct Params {
     pub blocks: usize,
     /// seed for sampled positions/ranks
     pub seed: u64,
+    /// also probe Index out of range (C12: answer or panic)
+    pub wild: bool,
 }
 
 pub fn decode_params(u: &mut Unstructured) -> Params {
@@ -30,6 +32,7 @@ pub fn decode_params(u: &mut Unstructured) -> Params {
         span: [8192usize, 1, 64, 1024, 1 << 20, 2, 512, 65536][u.int_in_range(0usize..=7).unwrap_or(0)],
         blocks: [8usize, 1, 2, 64, 3, 16][u.int_in_range(0usize..=5).unwrap_or(0)],
         seed: u.arbitrary().unwrap_or(0),
+        wild: false,
     }
 }
 
@@ -112,6 +115,11 @@ pub fn count<T: BitCount>(cx: &mut Ctx, name: &str, s: &T, m: &Model, _p: &Param
 
 pub fn index<T: Index<usize, Output = bool>>(cx: &mut Ctx, name: &str, s: &T, m: &Model, p: &Params) -> R {
     let len = m.len;
+    if p.wild {
+        for i in [len, len + 1, len + 63, len + 64, len.wrapping_mul(2), 1 << 32, 1 << 63, usize::MAX] {
+            cx.any(|| s[i]);
+        }
+    }
     if len == 0 {
         return Ok(());
     }
